@@ -196,6 +196,7 @@ class Interp:
         self.hooks_assert = []
         self.hooks_cmp = []                  # f(interp, fn, node, op, va, vb, st)
         self.hooks_cast = []                 # f(interp, fn, node, from_type, to_type, value, st)
+        self.hooks_arith = []                # f(interp, fn, node, op, result, st): every evaluation of an arithmetic operator
         self.site_counter = {}
         self.K = sorted(K) if K is not None else self._default_K()
         self.Kset = set(self.K)
@@ -822,10 +823,18 @@ class Interp:
             if op == "-" and st.mon.get("rel"):
                 ca, cb = self.single_cell(a, st, fn), self.single_cell(b, st, fn)
                 if ca is not None and cb is not None:
-                    if ("<", cb, ca) in st.mon["rel"]:
-                        return self.pos()
-                    if ("<=", cb, ca) in st.mon["rel"]:
-                        return self.nonneg()
+                    rr = self.pos() if ("<", cb, ca) in st.mon["rel"] else self.nonneg() if ("<=", cb, ca) in st.mon["rel"] else None
+                    if rr is not None:
+                        # the relation bounds the difference from below; what plain arithmetic knows on top of that is kept
+                        lo = 1 if ("<", cb, ca) in st.mon["rel"] else 0
+                        exact = self.arith(op, va, vb)
+                        if exact and not any(isinstance(x, tuple) or x in ("PTR", "NULL") for x in exact):
+                            keep = frozenset(x for x in exact if atom_interval(x)[1] >= lo and x != "NEG")
+                            if keep and keep <= rr:
+                                rr = keep
+                        for h in self.hooks_arith:
+                            h(self, fn, n, op, rr, st)
+                        return rr
             if op in ("==", "!=", "<", "<=", ">", ">="):
                 for h in self.hooks_cmp:
                     h(self, fn, n, op, va, vb, st)
@@ -836,7 +845,10 @@ class Interp:
                         may |= m
                         fail |= f
                 return frozenset(([1] if may else []) + ([0] if fail else []))
-            return self.arith(op, va, vb)
+            rr = self.arith(op, va, vb)
+            for h in self.hooks_arith:
+                h(self, fn, n, op, rr, st)
+            return rr
         if k == "CompoundAssignOperator":
             key = (fn.name, "t", n["id"])
             if key in st.tmp:
@@ -918,6 +930,8 @@ class Interp:
             v = self.arith(op, old, self.rval(rhs, st, fn))
             if op in ("+", "-"):
                 v = self.widen_step(op, old, v)
+            for h in self.hooks_arith:
+                h(self, fn, n, op, v, st)
             s = self.store(st, cells, v, fn, n)
             s.tmp[(fn.name, "t", n["id"])] = v
             return [s]
